@@ -106,6 +106,7 @@ func init() {
 			ruleInvalidNeverRuns(c, d)
 			ruleInvokeSites(c, d)
 			c.Clause("C02-D3")
+			ruleNullErrorIsAbsent(c)
 			ruleNullIsAbsent(c, d)
 			ruleIDHandling(c)
 			ruleJSONWhitespace(c)
